@@ -82,6 +82,7 @@ def run_pipeline(ssj, rec, case, call, fspec, n1, n2, measure):
         tok = T.make_tokenizer(call['tok'])
         sf = T.sim_function(measure)
     L, R = T.make_table(call['ltable']), T.make_table(call['rtable'])
+    L, R = T.unflag_if_key_is_attr(call, L, R)
     import joblib
     try:
         with joblib.parallel_config(backend='threading'):
